@@ -19,6 +19,9 @@ One iteration of the `while True:` loop is split at the `await handler(req)`:
                stripping of `Authorization` / `Cookie` / `Proxy-Authorization` and of the
                per-request cookies, `params = {}`, `resp.release()` / `resp.close()` calls).
 * `run`      = the loop: a fold over the scripted chain of responses.
+* `runF`     = the loop with connection faults: `run` plus the
+               `except (ClientOSError, ServerDisconnectedError)` arm - the per-call resend
+               allowance `retry_persistent_connection` (`St.retry`, `afterDrop`).
 
 Not modelled internally (parameters / oracle columns, see `Env`): yarl (a redirect target
 arrives already classified as `Loc`: missing / `URL()` raised / scheme not http(s) /
@@ -192,6 +195,8 @@ structure Cfg where
   maxRedirects : Nat := 10
   allowRedirects : Bool := true
   trustEnv : Bool := false
+  /-- `ClientSession._retry_connection` (default `True`; aiohttp's TestClient switches it off) -/
+  retryConnection : Bool := true
 deriving Repr
 
 /-- outcome of looking at `Location` / `URI` of a redirect response -/
@@ -224,6 +229,9 @@ structure St (σ : Type) where
   redirects : Nat
   history : List Nat
   jar : σ
+  /-- `retry_persistent_connection`: the call's allowance for ONE transparent resend after
+  `ServerDisconnectedError` / `ClientOSError` (only read by `runF`) -/
+  retry : Bool := false
   /-- ghost: index of the request about to be made = number of responses received -/
   idx : Nat
   /-- ghost: first hop of the current same-origin streak -/
@@ -258,6 +266,7 @@ inductive Err where
   | badRequest             -- ValueError from ClientRequest (chunked/Content-Length conflicts)
   | tooManyRedirects       -- TooManyRedirects
   | payloadConsumed        -- ClientPayloadError (consumed body cannot be replayed)
+  | disconnected           -- ServerDisconnectedError / ClientOSError (peer closed without answering)
 deriving DecidableEq, Repr
 
 inductive Outcome where
@@ -468,6 +477,7 @@ def react (env : Env) (cfg : Cfg) (st : St env.jar.σ) (s : Sent) (r : Resp) : N
             cookies := if cross then none else st.cookies,
             method := method, data := data, consumed := consumed,
             redirects := redirects, history := history, jar := jar',
+            retry := st.retry,                     -- the allowance is per call: never re-armed
             idx := i + 1, since := if cross then i + 1 else st.since }
           [.release i, .release i]
   else .stop (.ok i st.history) []
@@ -510,5 +520,52 @@ def init (env : Env) (url : Url) (params : Option Str) (method : Str) (defaults 
     headers := prepareHeaders (defaults.map callerHdr) (headers.map callerHdr),
     cookies := cookies, method := method, data := data, consumed := false,
     redirects := 0, history := [], jar := jar0, idx := 0, since := 0 }
+
+/-! ## the loop with connection faults
+
+`runF` is `run` plus the `except (ClientOSError, ServerDisconnectedError)` arm of the loop: the
+peer may close a connection without answering (`Reply.drop`).  The local
+`retry_persistent_connection` (`St.retry`) allows ONE transparent resend per call, for
+idempotent methods only; the resend goes through the top of the loop again (`prepare`), with
+the payload object of the failed request (`data = req._body`) unless that is already consumed. -/
+
+inductive Reply where
+  | resp (r : Resp)
+  | drop                  -- connection closed by the peer before any response
+deriving DecidableEq, Repr
+
+def isIdempotent (m : Str) : Bool := Gen.C17.idempotentMethods.contains m
+
+/-- the `except (ClientOSError, ServerDisconnectedError)` arm -/
+def afterDrop {σ : Type} (st1 : St σ) : Except Err (St σ) :=
+  if !st1.retry then .error .disconnected
+  else if st1.data.isSome && st1.consumed then .error .disconnected
+  else .ok { st1 with retry := false }
+
+def runF (env : Env) (cfg : Cfg) : St env.jar.σ → List Reply → Result
+  | st, chain =>
+    match prepare env cfg st with
+    | .error e => { sent := [], events := [], out := .err e }
+    | .ok (st1, s) =>
+      match chain with
+      | [] => { sent := [s], events := [], out := .pending }
+      | .drop :: rest =>
+        match afterDrop st1 with
+        | .error e => { sent := [s], events := [], out := .err e }
+        | .ok st1' =>
+          let res := runF env cfg st1' rest
+          { sent := s :: res.sent, events := res.events, out := res.out }
+      | .resp r :: rest =>
+        match react env cfg st1 s r with
+        | .stop out evs => { sent := [s], events := evs, out := out }
+        | .continue st2 evs =>
+          let res := runF env cfg st2 rest
+          { sent := s :: res.sent, events := evs ++ res.events, out := res.out }
+
+/-- `init` with the resend allowance of the call: `self._retry_connection and method in IDEMPOTENT_METHODS` -/
+def initF (env : Env) (cfg : Cfg) (url : Url) (params : Option Str) (method : Str) (defaults headers : List (Str × Str))
+    (cookies : Option (List (Str × Str))) (data : Option Body) (jar0 : env.jar.σ) : St env.jar.σ :=
+  { init env url params method defaults headers cookies data jar0 with
+    retry := cfg.retryConnection && isIdempotent method }
 
 end Aio.C17
